@@ -46,6 +46,9 @@ type c10frame struct {
 	obj      *ssa.Alloc     // the object
 	objPtr   *ssa.Alloc     // the local of W that holds its address, if any
 	objParam *ssa.Parameter // the parameter of CB that receives the address
+	// the object is built by a constructor (c10frame.ctorAlloc): obj is the allocation inside that function
+	ctor     *ssa.Function // the constructor
+	ctorCall *ssa.Call     // its call in W, whose value is the address of the object
 
 	// per-signature worker form (the loop body of CB hands each listed manifest to one module function or closure)
 	H         *ssa.Function    // the worker
@@ -75,6 +78,9 @@ func (x *c10frame) isObj(v ssa.Value) bool {
 		return false
 	}
 	if v == ssa.Value(x.obj) || (x.objParam != nil && v == ssa.Value(x.objParam)) {
+		return true
+	}
+	if x.ctorCall != nil && v == ssa.Value(x.ctorCall) {
 		return true
 	}
 	for _, p := range x.objParams {
@@ -231,7 +237,7 @@ func (x *c10frame) stores(c c10cell) c10stores {
 		}
 	} else {
 		done := map[*ssa.Function]bool{}
-		for _, fn := range []*ssa.Function{x.W, x.A, x.CB, x.H} {
+		for _, fn := range []*ssa.Function{x.W, x.A, x.CB, x.H, x.ctor} {
 			if fn == nil || done[fn] {
 				continue
 			}
@@ -843,6 +849,10 @@ func (x *c10frame) up(v ssa.Value) ssa.Value {
 		call = x.hc
 	case x.fc != nil && x.CB != x.A && p.Parent() == x.CB:
 		call = x.fc
+	case x.ctor != nil && x.ctorCall != nil && p.Parent() == x.ctor:
+		// a parameter of the constructor of the state object, for the object of this verification: the argument of the
+		// constructor's call in the outer function (other calls of the constructor build other objects)
+		call = x.ctorCall
 	default:
 		return nil
 	}
@@ -1240,6 +1250,7 @@ func (x *c10frame) onlyAfterWorkerSuccess(in ssa.Instruction, call *ssa.Call, er
 // that is then concluded from "these are all the stores to the field" rests on objectDiscipline, as in the forwarding form.
 func (x *c10frame) findStateObject() {
 	var obj, ptr *ssa.Alloc
+	var made *ssa.Call
 	n := 0
 	resolve := func(v ssa.Value) (*ssa.Alloc, *ssa.Alloc) {
 		for i := 0; i < 4; i++ {
@@ -1259,7 +1270,8 @@ func (x *c10frame) findStateObject() {
 			if fv, ok := u.X.(*ssa.FreeVar); ok {
 				if p, ok := x.bind[fv].(*ssa.Alloc); ok && p.Parent() == x.W {
 					if ps := x.stores(c10cell{p, -1}); ps.ok && len(ps.sts) == 1 {
-						if al, ok := ps.sts[0].Val.(*ssa.Alloc); ok && al.Parent() == x.W && c10IsStructPtr(al.Type()) {
+						if al, call := x.objAllocOf(ps.sts[0].Val); al != nil {
+							made = call
 							return al, p
 						}
 					}
@@ -1288,7 +1300,67 @@ func (x *c10frame) findStateObject() {
 	}
 	if n == 1 {
 		x.obj, x.objPtr = obj, ptr
+		if made != nil && obj.Parent() != x.W {
+			x.ctor, x.ctorCall = staticCallee(made), made
+		}
 	}
+}
+
+// ---------- the state object built by a constructor ---------------------------------------
+//
+// `st := newState(a, b, limit)` instead of `st := &state{…}`: the composite literal moved into a module function that
+// returns its address. The object of this verification is then the allocation inside that function, for the one call the
+// outer function makes: every return of the function returns that allocation itself (so what the outer function holds is
+// the address of a fresh object nobody else has — the constructor may use it field by field only and return it:
+// objectDiscipline), the stores the constructor makes to its fields are stores made before the outer function holds the
+// object, i.e. before the listing — they count as stores of the outer function (initial values; c10frame.inOuter) —, and
+// the constructor's parameters stand for the arguments of that call (c10frame.up), so "the limit field holds the caller's
+// MaxSignatureAttempts" and "the descriptor field holds what Resolve returned" are still decided on values. Other calls
+// of the constructor build other objects and do not matter.
+
+// ctorAlloc: v is the value of a call, made by the outer function, of a module function every return of which hands
+// back the address of one struct it allocates itself: that allocation and the call.
+func (x *c10frame) ctorAlloc(v ssa.Value) (*ssa.Alloc, *ssa.Call) {
+	call, ok := v.(*ssa.Call)
+	if !ok || call.Parent() != x.W || call.Call.IsInvoke() {
+		return nil, nil
+	}
+	g := staticCallee(call)
+	if g == nil || g.Blocks == nil || g.Parent() != nil || len(g.FreeVars) != 0 || !x.w.IsProductFn(g) || g == x.W || g == x.A ||
+		g.Signature.Results().Len() != 1 || len(call.Call.Args) != len(g.Params) {
+		return nil, nil
+	}
+	var al *ssa.Alloc
+	for _, b := range g.Blocks {
+		ret, ok := blockTerm(b).(*ssa.Return)
+		if !ok {
+			continue
+		}
+		a, ok := ret.Results[0].(*ssa.Alloc)
+		if !ok || a.Parent() != g || !c10IsStructPtr(a.Type()) || (al != nil && a != al) {
+			return nil, nil
+		}
+		al = a
+	}
+	if al == nil {
+		return nil, nil
+	}
+	return al, call
+}
+
+// objAllocOf: v, a value of the outer function, is the address of a struct the outer function allocates — or has a
+// constructor allocate (second result: the constructor's call).
+func (x *c10frame) objAllocOf(v ssa.Value) (*ssa.Alloc, *ssa.Call) {
+	if al, ok := v.(*ssa.Alloc); ok && al.Parent() == x.W && c10IsStructPtr(al.Type()) {
+		return al, nil
+	}
+	return x.ctorAlloc(v)
+}
+
+// inOuter: a store made by fn is a store of the outer function — made by itself, or by the constructor of the state
+// object while it builds the object (before the outer function, let alone the listing, can use it).
+func (x *c10frame) inOuter(fn *ssa.Function) bool {
+	return fn != nil && (fn == x.W || (x.ctor != nil && fn == x.ctor))
 }
 
 // ---------- the iteration budget ---------------------------------------------------
@@ -1430,7 +1502,7 @@ func (x *c10frame) isStableLimit(v ssa.Value) bool {
 		if !s.ok || len(s.sts) != 1 {
 			break
 		}
-		if s.sts[0].Parent() != x.W {
+		if !x.inOuter(s.sts[0].Parent()) {
 			return false
 		}
 		v = s.sts[0].Val
@@ -1438,7 +1510,7 @@ func (x *c10frame) isStableLimit(v ssa.Value) bool {
 	if u, ok := c10IsLoad(v); ok {
 		if fa, ok := u.X.(*ssa.FieldAddr); ok {
 			if c, ok := x.cellOf(fa.X); ok {
-				if s := x.stores(c); !s.ok || len(s.sts) != 1 || s.sts[0].Parent() != x.W {
+				if s := x.stores(c); !s.ok || len(s.sts) != 1 || !x.inOuter(s.sts[0].Parent()) {
 					return false
 				}
 			}
